@@ -89,44 +89,6 @@ def tree? : Nat → List String → Option (Expr × List String)
       else none
     | [] => none
 
-/-! #### `rpow` at `K := Rat`: exact when the result is rational, else correct to ~2^-200 relative -/
-
-/-- Newton iteration for the integer `d`-th root, started above the root. -/
-def irootGo (d n : Nat) : Nat → Nat → Nat
-  | 0, x => x
-  | fuel + 1, x =>
-    let y := ((d - 1) * x + n / x ^ (d - 1)) / d
-    if y < x then irootGo d n fuel y else x
-
-/-- `⌊n^(1/d)⌋` (`d ≥ 1`). -/
-def iroot (d n : Nat) : Nat :=
-  if n = 0 then 0 else if d ≤ 1 then n else
-  irootGo d n (n.log2 + 64) (2 ^ (n.log2 / d + 1))
-
-def rpowBits : Nat := 200
-
-/-- `x ^ q` for positive `x` and non-integer `q`: `(value, exact?)`.  `x ^ q.num` is formed exactly; when its numerator
-    and denominator are perfect `q.den`-th powers the result is the exact rational (`4^0.5 = 2`, `(1/8)^(2/3) = 1/4`);
-    otherwise `⌊(a·2^(d·k)/b)^(1/d)⌋ / 2^k` with `k` chosen so that the root has about `rpowBits` bits. -/
-def ratRpowE (x : Rat) (q : Rat) : Rat × Bool :=
-  let y := powInt x q.num
-  let d := q.den
-  let a := y.num.natAbs
-  let b := y.den
-  let ra := iroot d a
-  let rb := iroot d b
-  if ra ^ d = a ∧ rb ^ d = b then (mkRat ra rb, true)
-  else
-    let k : Int := (rpowBits : Int) + ((b.log2 : Int) - (a.log2 : Int)) / (d : Int) + 2
-    if 0 ≤ k then
-      let r := iroot d (a * 2 ^ (d * k.toNat) / b)
-      (mkRat r (2 ^ k.toNat), false)
-    else
-      let r := iroot d (a / (b * 2 ^ (d * (-k).toNat)))
-      ((r : Rat) * ((2 : Rat) ^ (-k).toNat), false)
-
-def ratRpow (x : Rat) (q : Rat) : Rat := (ratRpowE x q).1
-
 /-- the algebra the driver runs: `numAlgR` (every theorem about `numAlg` applies to it by `parse_rpow_extends`). -/
 def rAlg : Alg Rat := numAlgR (fun q => some q) ratRpow
 
